@@ -41,22 +41,22 @@ def sequence(kind, n, rng):
     raise ValueError(kind)
 
 
-def channels(ctx, fmt, n, seed, sw, other_bits):
-    pb = filegen.PassBuilder(ctx, fmt, n, random.Random(repr((seed, fmt, n))))
+def channels(ctx, fmt, n, seed, sw, other_bits, start_ms=None):
+    pb = filegen.PassBuilder(ctx, fmt, n, random.Random(repr((seed, fmt, n))), start_ms=start_ms)
     pb.samples[:, 2::5] = pb.nprng.integers(60, 1000, size=pb.samples[:, 2::5].shape)
     pb.bitfield = ((other_bits << 2) | sw).astype(np.uint16)
     r = filegen.make_reader(ctx, fmt, data=pb.tobytes(), name=pb.dsname)
     return np.array(r.get_calibrated_channels()), pb
 
 
-def check_klm(ctx, fmt, n, kind, seed, drv):
+def check_klm(ctx, fmt, n, kind, seed, drv, start_ms=None):
     rng = random.Random(repr((seed, fmt, n, kind)))
     sw = sequence(kind, n, rng)
     other = np.array([rng.getrandbits(14) for _ in range(n)])
-    ch, pb = channels(ctx, fmt, n, seed, sw, other)
-    ref_a, _ = channels(ctx, fmt, n, seed, np.ones(n, dtype=int), other)
-    ref_b, _ = channels(ctx, fmt, n, seed, np.zeros(n, dtype=int), other)
-    payload = {"fmt": fmt, "n": n, "kind": kind, "seed": seed, "select": sw.tolist()}
+    ch, pb = channels(ctx, fmt, n, seed, sw, other, start_ms)
+    ref_a, _ = channels(ctx, fmt, n, seed, np.ones(n, dtype=int), other, start_ms)
+    ref_b, _ = channels(ctx, fmt, n, seed, np.zeros(n, dtype=int), other, start_ms)
+    payload = {"fmt": fmt, "n": n, "kind": kind, "seed": seed, "select": sw.tolist(), "start_ms": start_ms}
     if ch.shape[-1] != 6:
         ctx.violation("%s: %d channel slots instead of 6" % (fmt, ch.shape[-1]), payload, cls="klm-slots")
         return
@@ -115,6 +115,10 @@ def run(ctx):
     check_klm(ctx, "klmLac", 7, "3b+transition", ctx.seed * 1000 + k + 1, drv)
     check_klm(ctx, "klmGac", 6, "all3a", ctx.seed * 1000 + k + 2, drv)
     check_klm(ctx, "klmGac", 60, "random", ctx.seed * 1000 + k + 3, drv)
+    # a NOAA-16 pass lying entirely inside a listed scan-motor interval (2004-01-14): the later masking step must not
+    # undo the 3a / 3b blanking
+    check_klm(ctx, "klmGac", 24, "random", ctx.seed * 1000 + k + 4, drv, start_ms=filegen.ydm_to_ms(2004, 14, 54000000))
+    check_klm(ctx, "klmGac", 12, "3a+transition", ctx.seed * 1000 + k + 5, drv, start_ms=filegen.ydm_to_ms(2004, 14, 57600000))
     check_pod(ctx, "podGac", 12, ctx.seed)
     check_pod(ctx, "podLac", 6, ctx.seed)
     if ctx.thorough:
@@ -151,7 +155,7 @@ def replay(ctx, path):
     if inp.get("pod"):
         check_pod(ctx, inp["fmt"], inp["n"], inp["seed"])
     else:
-        check_klm(ctx, inp["fmt"], inp["n"], inp["kind"], inp["seed"], [])
+        check_klm(ctx, inp["fmt"], inp["n"], inp["kind"], inp["seed"], [], start_ms=inp.get("start_ms"))
     if ctx.input_violations:
         print("REPRODUCED: " + ctx.input_violations[0]["what"])
         return 1
